@@ -4,6 +4,8 @@
 -/
 import DateutilVerif.Model.Factory
 import DateutilVerif.Proofs.FactoryLive
+import DateutilVerif.Proofs.FactorySingle
+import DateutilVerif.Proofs.FactoryRank
 
 namespace C18
 open Fact
@@ -189,5 +191,55 @@ theorem no_deadlock (h : Reachable kd res (initState cap scripts) s) :
         · cases hp : (s.ths[t2]).pc <;> simp_all [inLocked, isAcq]
         · exact ⟨t2, run t2 _ h2 hen2⟩
     · exact ⟨t, run t _ hth hen⟩
+
+
+/-- FULL STATEMENT (not formalised: it needs infinite fair schedules): under every fair schedule every
+call returns.  PROVED: the variant `rank` (a number read off the thread's pc; for `set_cache_size`
+also twice the length of the strong cache) strictly decreases with EVERY statement a call executes,
+in every state — so a call runs at most `rank` of its own statements — and while a thread holds
+the lock no statement of another thread changes its rank — so a critical section is left after at
+most `rank` steps of its owner.  With `no_deadlock` (the lock holder can always move, a thread only
+ever waits for the lock) this is the termination argument; the set_cache_size loop is the only loop. -/
+theorem always_returns_partial :
+    (∀ (t : Tid) (g g' : Glob) (th th' : Thread), th.pc ≠ .idle → tstep kd res t g th = some (g', th') →
+        rank g' th' < rank g th) ∧
+    (∀ {s s' : State} {t t' : Tid} {th2 : Thread}, Reachable kd res (initState cap scripts) s →
+        step kd res s (.thr t) = some s' → t ≠ t' → s.g.lock = some t' → rank s'.g th2 = rank s.g th2) := by
+  refine ⟨fun t g g' th th' hpc h => rank_decreases hpc h, ?_⟩
+  intro s s' t t' th2 hr hs hne hl
+  have hI := reachable_inv (init_inv (kd := kd) (res := res) cap scripts) hr
+  simp only [step] at hs
+  split at hs
+  · cases hs
+  · rename_i th hth
+    split at hs
+    · cases hs
+    · rename_i g' th' hstep
+      cases hs
+      exact rank_stable hne hl (tstep_guar (hI.ti t th hth) hstep)
+
+example : rank { strong := [(0, 0), (1, 1)] } { pc := .sLoop } = 7 := by decide
+
+/-! ### tzutc(): `_TzSingleton.__call__` -/
+
+/-- FULL STATEMENT (fails for a `_TzSingleton` class whose slot is still empty when threads start:
+the unlocked test-then-store can build two objects — see the example below): every `tzutc()` returns
+one object.  PROVED for the initial state tz.py creates: `UTC = tzutc()` runs while the module is
+imported (the oracle checks `tzutc._TzSingleton__instance is tz.UTC`), after which, for arbitrary
+schedules / threads / scripts, the slot never changes and every reference handed out is that object. -/
+theorem singleton_unique_partial {scripts : List (List Op)} {s : State}
+    (h : Reachable .single res (initSingleton scripts) s) :
+    s.g.single = some 0 ∧ ∀ r ∈ s.g.held, r.id = 0 :=
+  ⟨(sinv_reachable h).slot, (sinv_reachable h).held⟩
+
+/-- the latent race of an un-initialised `_TzSingleton` class at statement granularity: both threads
+pass `if cls.__instance is None`, thread 0 stores and returns object 0, thread 1 stores and returns object 1 -/
+example :
+    let sched : List Tid := [0, 0, 1, 1, 0, 0, 0, 0, 1, 1, 1, 1]
+    let s := sched.foldl (fun s t => (step .single (fun _ => .zone) s (.thr t)).getD s)
+              (initState 8 [[.call 0], [.call 0]])
+    s.g.held.map (fun r => r.id) = [0, 1] := by decide
+
+example : (initSingleton [[.call 0], [.call 0]]).ths.length = 2 := by decide
 
 end C18
